@@ -155,7 +155,7 @@ class CallMixin:
     def find_method(self, cls_name: str, name: str, after: Optional[str] = None) -> Optional[FuncV]:
         stub = self.stubs.get(f"{cls_name}.{name}")
         if stub is not None and after is None:
-            return self.sidecar_function(stub)
+            return stub if isinstance(stub, dsl.External) else self.sidecar_function(stub)
         started = after is None
         for cls in self.mro(cls_name):
             if not started:
@@ -164,7 +164,7 @@ class CallMixin:
                 continue
             stub = self.stubs.get(f"{cls.name}.{name}")
             if stub is not None:
-                return self.sidecar_function(stub)
+                return stub if isinstance(stub, dsl.External) else self.sidecar_function(stub)
             if name in cls.methods:
                 return FuncV(cls.methods[name], cls.module, f"{cls.name}.{name}", owner=cls.name)
         return None
